@@ -104,6 +104,35 @@ def alone(kind, t, flow, bufsize):
     return blocks, []
 
 
+def _sig(v):
+    """Concrete shape of a value (integers masked): a cheap pre-filter, so
+    that symbolic equality is only asked of candidates of the same shape."""
+    if isinstance(v, dict):
+        return tuple([(k, _sig(v[k])) for k in sorted(v)])
+    if isinstance(v, (list, tuple)):
+        return (type(v).__name__, tuple([_sig(x) for x in v]))
+    if isinstance(v, str):
+        return v
+    if isinstance(v, int):
+        return "i"
+    return type(v).__name__
+
+
+def same_multiset(got, want):
+    if len(got) != len(want):
+        return False
+    rest = [(_sig(g), g) for g in got]
+    for w in want:
+        sw = _sig(w)
+        for j in range(len(rest)):
+            if rest[j][0] == sw and rest[j][1] == w:
+                del rest[j]
+                break
+        else:
+            return False
+    return True
+
+
 def check_split_run(k0: int, k1: int, k2: int, bufsize: int, xs: List[int]) -> bool:
     """
     pre: 0 <= k0 <= 6 and 0 <= k1 <= 6 and -1 <= k2 <= 1
@@ -131,7 +160,7 @@ def check_split_run(k0: int, k1: int, k2: int, bufsize: int, xs: List[int]) -> b
     if 6 in (k0, k1):
         # a stopping branch is finalised inside the block where it stops: only
         # the multiset of results is compared here (the schedule is C03's)
-        return h.ok(sorted([repr(v) for v in got]) == sorted([repr(v) for v in want]))
+        return h.ok(same_multiset(got, want))
     return h.ok(got == want)
 
 
